@@ -30,7 +30,12 @@ MANIFEST = {
             "order, degenerate or not); for Polygon under explicit hypotheses at the query point (closed rings; a point on a hole ring is not outside the "
             "shell; a point strictly inside a hole is on no hole ring: coordPos_polygon_eq_locate_partial), for MultiPolygon when members agree and no point "
             "is interior to one member and on the boundary of another, for MultiLineString when the point is an end point of at most one open member "
-            "(coordPos_mls_eq_locate_partial) with the K9 witness proved (coordPos_mls_ne_locate_witness). "
+            "(coordPos_mls_eq_locate_partial) with the K9 witness proved (coordPos_mls_ne_locate_witness). Masks on the specification: for every geometry A, "
+            "is_contains(relateSpec(A, Point c)) = (locate A c = Inside) and is_intersects(...) = (locate A c != Outside); hence the hand-written "
+            "Contains<Point> bodies of Point, MultiPoint, Line, Rect (non-degenerate), Triangle, Polygon (same hypotheses) and the Intersects<Point> paths of "
+            "Point, MultiPoint, Line, LineString, Rect, Polygon equal the mask on the specification. Dispatch: has_disjoint_bboxes is sound for the segment "
+            "kernel (LineString x LineString, LineString x Line), MultiPoint / LineString / MultiPolygon / GeometryCollection clauses are (bbox test and) any "
+            "over members, intersects is symmetric on every primitive pair except Triangle x Triangle and Polygon x Polygon, and for MultiPoint x primitive. "
             "Each generated case is compared three ways (implementation = model, implementation = specification).",
     "note": "Trusted: Lean kernel + audited axioms; translator; harness (sampling); spec adequacy. Repaired in /repo by this work: Triangle coordinate_position "
             "(29720670), MultiPolygon shared vertex (5f41a6da), MultiPolygon::contains(MultiPoint) (d4024e6e), MultiLineString::contains(Point) (81f1ade9). "
